@@ -105,6 +105,27 @@ theorem C04_no_duplicate_step (s : Sess) (m : InMsg) (stash : List (Int × InMsg
     rrAfter (step s (.incomingMsg (some m))) ≤ s.toSend.countP isRR + (if cur ≠ 0 then 1 else 0) :=
   rrAfter_incoming_rec s m stash cur fin h hi
 
+/-- **every event, every state** (fixed code, nothing buffered in the inbound channel): connect, inbound message or
+    garbage, timer events, disconnect, stop, application send, flush, session-time change — the ResendRequests written
+    during the event plus those still queued afterwards exceed those queued before by at most the event's budget:
+    one for an inbound message (none in a recovery state with everything requested), whatever the application itself
+    submits, and nothing for any other event -/
+theorem C04_requests_only_on_inbound (s : Sess) (e : Ev) (hi : s.inbox = []) (hfix : s.cfg.lookThroughPending = true)
+    (hna : ∀ m, e ≠ .arrive m) :
+    rrAfter (step s e) ≤ s.toSend.countP isRR + evBudget s e :=
+  rrAfter_le s e hi hfix hna
+
+/-- … and over whole histories (every configuration with the fixed code, every initial counters, every sequence of
+    events other than buffered arrivals): the ResendRequests on the wire plus those still queued at the end are bounded
+    by the sum of the budgets of the events, each taken in the state it meets — in particular a recovery with everything
+    requested contributes nothing however many messages arrive -/
+theorem C04_no_duplicate_history (cfg : Cfg) (s0 t0 : Int) (evs : List Ev) (hfix : cfg.lookThroughPending = true)
+    (hna : ∀ e ∈ evs, ∀ m, e ≠ .arrive m) :
+    (wiresOf (histObs (initSess cfg s0 t0) evs)).countP isRR + (histEnd (initSess cfg s0 t0) evs).toSend.countP isRR
+      ≤ histBudget (initSess cfg s0 t0) evs := by
+  have := rr_history evs (initSess cfg s0 t0) rfl hfix hna
+  simpa [initSess] using this
+
 /-! ### the early message is kept -/
 
 /-- **C04 (kept)**: recovery in progress (`target ≤ fin`), a sequence-gated message passing the identity gates (the
@@ -258,6 +279,13 @@ theorem C04_logon_gap_detected (s : Sess) (m : InMsg) (n : Int) (hst : s.st = .l
           .incomingMsg (some (demoIn {} "D" 2)), .incomingMsg (some (demoIn {} "D" 3)), .incomingMsg (some (demoIn {} "D" 4))]).st.name == "InSession"
 #guard (runEvs (demoUp {}) [.incomingMsg (some (demoIn {} "D" 5)), .incomingMsg (some (demoIn {} "D" 6)),
           .incomingMsg (some (demoIn {} "D" 2)), .incomingMsg (some (demoIn {} "D" 3)), .incomingMsg (some (demoIn {} "D" 4))]).store.target == 7
+-- whole history: one ResendRequest on the wire; the budgets of the five messages met in recovery (everything requested) are 0
+#guard (wiresOf (histObs (initSess {} 1 1) [.connect, .incomingMsg (some (demoIn {} "A" 1 [(98, "0"), (108, "30")])),
+          .incomingMsg (some (demoIn {} "D" 5)), .incomingMsg (some (demoIn {} "D" 7)), .incomingMsg (some (demoIn {} "D" 2)),
+          .incomingMsg (some (demoIn {} "D" 3)), .incomingMsg (some (demoIn {} "D" 4))])).countP isRR == 1
+#guard histBudget (initSess {} 1 1) [.connect, .incomingMsg (some (demoIn {} "A" 1 [(98, "0"), (108, "30")])),
+          .incomingMsg (some (demoIn {} "D" 5)), .incomingMsg (some (demoIn {} "D" 7)), .incomingMsg (some (demoIn {} "D" 2)),
+          .incomingMsg (some (demoIn {} "D" 3)), .incomingMsg (some (demoIn {} "D" 4))] == 2
 -- the gap on the Logon itself: Logon(4) on a fresh acceptor expecting 1 → request [1, 0] queued behind the Logon reply, empty stash
 #guard (runEvs (initSess {} 1 1) [.connect, .incomingMsg (some (demoIn {} "A" 4 [(98, "0"), (108, "30")]))]).toSend
         == [{ kind := "2", seq := 2, f := [(7, "1"), (16, "0")] }]
@@ -286,7 +314,8 @@ Clause checklist (properties.jsonl C04 → theorems)
 * EndSeqNo infinity (0 / 999999 before FIX.4.2), or T+chunk-1 when the chunk is smaller     : C04_request (`chunkEnd`), guards for 4.2 / 4.1 / chunk 2
 * keeps the early message                                                                  : C04_request (stash = [(n, m)]), C04_kept, C04_kept_quiet, C04_kept_mem/_others
 * while recovering no further ResendRequest other than next-chunk ones, begin = expected   : C04_no_duplicate (shape), C04_no_duplicate_all_requested (cur = 0: none),
-                                                                                             C04_no_duplicate_budget (≤ 1), C04_no_duplicate_step (whole event)
+                                                                                             C04_no_duplicate_budget (≤ 1), C04_no_duplicate_step (whole event),
+                                                                                             C04_requests_only_on_inbound (every event kind), C04_no_duplicate_history (all histories)
 * … also with a TestRequest pending (every state with `curResend = some …`)               : same theorems (hypothesis `curResend s = some …` covers `pending(resend)`); C20_cancel_resend
 * once the missing numbers arrived every kept message next in sequence is delivered, in order : C04_drain, C04_drain_spec (`Drained`), C01_inorder_exactly_once for order/uniqueness
 * … without being requested again                                                          : C04_drain_no_request, C04_no_duplicate
